@@ -623,6 +623,25 @@ def gen_c09(rng, tier):
                        w.tcp_frame(v6, sport, dport, 101, (ck + 1) & 0xffffffff, 0x10), w.tcp_frame(v6, sport, dport, 101, (ck + 1) & 0xffffffff, 0x11),
                        w.tcp_frame(v6, sport, dport, 102, (ck + 1) & 0xffffffff, 0x04), w.tcp_frame(v6, sport, dport, 101, (ck + 1) & 0xffffffff, 0x10)]
         cases.append(case(w, frames, ['handshake-without-data']))
+        # segments that carry data but do not validate the flow: every flag word without PSH+ACK, with a payload, and PSH|ACK whose
+        # acknowledgement number differs from cookie+1 in ways a sloppy comparison might miss (bytes permuted, byte differences that
+        # XOR / add up to zero, only one byte compared)
+        frames = []
+        for dport in (80, 22, rng.u16()):
+            for flags in (0x11, 0x10, 0x04, 0x14, 0x01, 0x02, 0x12, 0x08, 0x19 & ~0x08, 0x31, 0x00, 0x29):
+                sport = rng.u16()
+                ck = w.cookie(s_, d_, sport, dport)
+                frames.append(w.tcp_frame(v6, sport, dport, 100, (ck + 1) & 0xffffffff, flags, b'GET / HTTP/1.1\r\n\r\n'))
+            sport = rng.u16()
+            good = (w.cookie(s_, d_, sport, dport) + 1) & 0xffffffff
+            b = list(struct.pack('>I', good))
+            wrong = {good ^ 0x01010000, good ^ 0x00000101, good ^ 0x01000001, good ^ 0xffffffff, good ^ 0x80808080, (good + 0x01000000) & 0xffffffff,
+                     (good & 0xffffff00) | ((good + 1) & 0xff), (good & 0x00ffffff) | ((((good >> 24) + 1) & 0xff) << 24),
+                     struct.unpack('>I', bytes([b[1], b[0], b[2], b[3]]))[0], struct.unpack('>I', bytes([b[3], b[2], b[1], b[0]]))[0],
+                     struct.unpack('>I', bytes([b[0] ^ 5, b[1] ^ 5, b[2], b[3]]))[0], struct.unpack('>I', bytes([b[0] ^ 0x80, b[1], b[2] ^ 0x80, b[3]]))[0]} - {good}
+            for a in sorted(wrong):
+                frames.append(w.tcp_frame(v6, sport, dport, 100, a, 0x18, b'GET / HTTP/1.1\r\n\r\n'))
+        cases.append(case(w, frames, ['data-without-validation']))
         # error messages about our packets of flows that never validated (and of one that did): no state either
         frames = []
         for dport in (80, 22, rng.u16()):
@@ -1046,6 +1065,16 @@ def gen_c10(rng, tier):
             aops.append(('F', w.udp_frame(v, rng.u16(), rng.choice([53, 53, 5353, 3478, 111, 80, 22, 445, 0, 65535, rng.u16()]), s)))
     c = acase(w, ops, ['matcher'])
     cases.append(c)
+    # every complete request in the framing of BOTH transports over BOTH transports (record-marked call in a datagram, xid-first
+    # call on a connection, NetBIOS-less SMB, ...): which responder answers is decided by the bytes, not by the transport
+    xops = []
+    for _ in range(6 if tier == 'quick' else 60):
+        for t_gen in (False, True):
+            for kind in ('rpc', 'rpc', 'stun', 'smb1', 'smb2', 'http', 'ssh', 'ghost', 'dns'):
+                pl = gen.gen_rpc(rng, t_gen) if kind == 'rpc' else gen.gen_stun_long(rng) if kind == 'stun' else gen.gen_app(rng, tcp=t_gen, kinds=[kind])[2]
+                for t_send in (False, True):
+                    xops.append(app_op(rng, w, pl, tcp=t_send))
+    cases.append(acase(w, xops, ['framing-x-transport']))
     cases.append(acase(w, aops, ['matcher-strings-through-repl']))
     # segmented TCP flows: junk / partial signature first, then (the rest of) a request, same flow
     ops = []
